@@ -182,7 +182,12 @@ class Lemma:
     parameter of node or Seq type; the prover generates one obligation per constructor with the
     induction hypothesis for every direct child, never the lemma itself."""
 
-    def __init__(self, fn, induction_on, props, uses, hint=None):
+    def __init__(self, fn, induction_on, props, uses, hint=None, axiom=False, auto=(), patterns=None):
+        self.axiom = axiom          # assumed, never proved: listed among the unchecked assumptions of every user
+        self.auto = tuple(auto)     # spec names: the (proved) lemma is added, universally quantified, to every
+        #                             obligation of a task that uses one of these specs
+        self.patterns = patterns    # optional function of the same parameters returning the E-matching trigger terms
+        self.patterns_node = _fundef_of(patterns) if patterns is not None else None
         self.hint = hint
         self.hint_node = _fundef_of(hint) if hint is not None else None
         self.fn = fn
@@ -194,11 +199,11 @@ class Lemma:
         self.uses = list(uses)
 
 
-def lemma(induction_on=None, props=(), uses=(), hint=None):
+def lemma(induction_on=None, props=(), uses=(), hint=None, axiom=False, auto=(), patterns=None):
     """hint: function of the same parameters calling instances of earlier lemmas; evaluated for the
     goal of each case only (it may branch on the case), never inside induction hypotheses"""
     def deco(fn):
-        lm = Lemma(fn, induction_on, props, uses, hint)
+        lm = Lemma(fn, induction_on, props, uses, hint, axiom, auto, patterns)
         lm.index = len(LEMMAS)
         LEMMAS[fn.__name__] = lm
         fn._lemma = lm
